@@ -822,6 +822,18 @@ def r17_range_inclusive(src, ctx):
     return re.sub(r'for (\w+) in (\w+)\.\.=(\w+) \{', rep, src)
 
 
+def r19_vec_elem_type(src, ctx):
+    """R19: `let mut x = Vec::new()/with_capacity(..)` whose element type is only fixed by a later `x.push(Name { .. })`
+    gets the ascription `: Vec<Name>` (contract clauses mentioning x are type-checked before that push is seen)."""
+    out = src
+    for m in list(re.finditer(r'let\s+mut\s+(\w+)\s*=\s*Vec::(?:new|with_capacity)\(', src)):
+        name = m.group(1)
+        pm = re.search(r'\b' + re.escape(name) + r'\.push\(\s*([A-Z]\w*)\s*\{', src[m.end():])
+        if pm:
+            out = out.replace(m.group(0), m.group(0).replace(name + ' =', name + ': Vec<' + pm.group(1) + '> =').replace(name + '  =', name + ': Vec<' + pm.group(1) + '> ='), 1)
+            ctx.log.append(('R19', m.group(0), 'Vec<' + pm.group(1) + '>'))
+    return out
+
 def apply_all(src, ctx):
     src = r0_strip(src, ctx)
     src = r17_range_inclusive(src, ctx)
@@ -838,6 +850,7 @@ def apply_all(src, ctx):
     src = r18_any_position(src, ctx)
     src = r7_collect(src, ctx)
     src = r2_sum(src, ctx)
+    src = r19_vec_elem_type(src, ctx)
     src = r12_skip_by_value(src, ctx)
     src = r3_loops(src, ctx, map_locals_of(src))
     src = r11_hoist_map_iter(src, ctx, map_locals_of(src))
